@@ -24,6 +24,7 @@ EXPLANATION = ("a: for every HashMap field that the query entry point reads befo
 FLOORS = {"memo_writes": 1}
 EXPLANATION += ' a (added): the key function renders every fact value injectively - the only uses of a `Value` on the way into the key are its Debug rendering, hashing or serialising the value itself; to_number/to_string/Display style conversions conflate Integer(5), Number(5.0) and String("5").'
 EXPLANATION += ' a (added): the verdict depends on the configuration, which is not in the key: every &mut self method of BackwardEngine that stores the configuration or a verdict-relevant part of it (everything but max_solutions) discards the goal manager / its cache on every path.'
+EXPLANATION += ' a (added): the query part of the memo key is the query text, not a projection of the parsed Goal (which drops a leading NOT into a flag).'
 
 BE = "backward::backward_engine::BackwardEngine"
 GM = "backward::goal::GoalManager"
@@ -57,6 +58,13 @@ def run(P, R, tier, cfg):
                 if c.resolved and c.resolved.endswith("::search_with_execution") and c.bb in fn.normal_blocks():
                     for a in c.args:
                         vp |= _params_in(fn, fn.sym_operand(a))
+            # the query part of the key is the query text itself: a projection of the parsed goal (its expression without the
+            # `NOT` flag, a normalised spelling) lets two different questions share one entry
+            proj = [x for x in walk(key) if x[0] == "field" and str(x[3]).endswith("backward::goal::Goal")]
+            goal_args = [a_ for kx in walk(key) if kx[0] == "call" and kx[1] in P.fns for a_ in kx[2] if "Goal" in fmt_sym(strip(a_), maxdepth=3) or any(y[0] == "call" and y[1].endswith("QueryParser::parse") for y in walk(a_))]
+            if proj or goal_args:
+                R.violate("a", "memo-key-from-parsed-goal:%s" % fn.short_name,
+                          "%s builds the memo key from the parsed goal instead of the query text: QueryParser::parse moves a leading NOT into Goal::is_negated, so `G` and `NOT G` (and differently spaced spellings the search reads differently) get the same key and the second is answered with the first one's verdict" % fn.short_name, fn, w.line)
             _cached_is_answered(P, R, fn, w, val, reads)
             names = {i: (fn.locals[i][1] or "_%d" % i) for i in range(1, fn.argc + 1)}
             missing = sorted(p for p in vp - kp if p != 1)
